@@ -45,9 +45,16 @@ type FuncContract struct {
 	File       string
 	Line       int
 	Reveal     map[string]bool
+	GhostSets  []GhostSet // ghost assignments executed at function entry
+	Decodes    []string // parameters (interface values boxing a pointer) whose pointee is overwritten arbitrarily
 	Witness    map[string]map[string]Expr // clause label -> existential variable -> witness term
 	Names      []string // declared parameter/result names for externs: (a, b) (r1, r2)
 	ResNames   []string
+}
+
+type GhostSet struct {
+	Name string
+	Expr Expr
 }
 
 type SpecParam struct {
@@ -78,10 +85,16 @@ type Library struct {
 	Lemmas []*Clause
 	AxPkg  map[*Clause]string
 	Files  []string
+	LemmaOpts map[string]*LemmaOpt
+}
+
+type LemmaOpt struct {
+	Using  []string
+	Reveal map[string]bool // nil: every spec function is transparent
 }
 
 func newLibrary() *Library {
-	return &Library{Funcs: map[string]*FuncContract{}, Specs: map[string]*SpecFunc{}, Ghosts: map[string]string{}, GhostPkg: map[string]string{}, AxPkg: map[*Clause]string{}}
+	return &Library{Funcs: map[string]*FuncContract{}, Specs: map[string]*SpecFunc{}, Ghosts: map[string]string{}, GhostPkg: map[string]string{}, AxPkg: map[*Clause]string{}, LemmaOpts: map[string]*LemmaOpt{}}
 }
 
 func (L *Library) loadAll(repo string, specDir string) error {
@@ -108,6 +121,7 @@ func (L *Library) loadFile(path string) error {
 	L.Files = append(L.Files, path)
 	pkg := ""
 	var cur *FuncContract
+	curLemma := ""
 	type pending struct {
 		kind  string
 		text  string
@@ -157,6 +171,7 @@ func (L *Library) loadFile(path string) error {
 			pkg = strings.TrimSpace(rest)
 			cur = nil
 		case "func", "extern":
+			curLemma = ""
 			key, names, resnames, aliases, err := parseFuncHeader(rest)
 			if err != nil {
 				return errf("%v", err)
@@ -236,6 +251,24 @@ func (L *Library) loadFile(path string) error {
 			cur.Allocates = true
 		case "opaque":
 			cur.Opaque = true
+		case "ghostset":
+			// ghostset <name> : <expr>  -- the function records expr in ghost variable name on entry
+			c := cur
+			i := strings.Index(rest, ":")
+			if i < 0 {
+				return errf("ghostset needs 'name : expr'")
+			}
+			gname := strings.TrimSpace(rest[:i])
+			ge, err := parseExpr(strings.TrimSpace(rest[i+1:]))
+			if err != nil {
+				return errf("%v", err)
+			}
+			c.GhostSets = append(c.GhostSets, GhostSet{gname, ge})
+			c.Assigns = append(c.Assigns, "ghost:"+gname)
+		case "decodes":
+			for _, a := range strings.Split(rest, ",") {
+				cur.Decodes = append(cur.Decodes, strings.TrimSpace(a))
+			}
 		case "noinline":
 			cur.NoInline = true
 		case "nilable":
@@ -274,7 +307,26 @@ func (L *Library) loadFile(path string) error {
 				c.Witness[label][v] = e
 				return nil
 			}}
+		case "using":
+			if curLemma == "" {
+				return errf("using outside lemma")
+			}
+			for _, a := range strings.Split(rest, ",") {
+				L.LemmaOpts[curLemma].Using = append(L.LemmaOpts[curLemma].Using, strings.TrimSpace(a))
+			}
 		case "reveal":
+			if cur == nil && curLemma != "" {
+				o := L.LemmaOpts[curLemma]
+				if o.Reveal == nil {
+					o.Reveal = map[string]bool{}
+				}
+				for _, a := range strings.Split(rest, ",") {
+					if a = strings.TrimSpace(a); a != "" && a != "nothing" {
+						o.Reveal[a] = true
+					}
+				}
+				continue
+			}
 			if cur.Reveal == nil {
 				cur.Reveal = map[string]bool{}
 			}
@@ -324,6 +376,12 @@ func (L *Library) loadFile(path string) error {
 			cur = nil
 			w := word
 			p := pkg
+			if w == "lemma" {
+				if i := strings.Index(rest, ":"); i > 0 {
+					curLemma = strings.TrimSpace(rest[:i])
+					L.LemmaOpts[curLemma] = &LemmaOpt{}
+				}
+			}
 			pend = &pending{text: rest, line: ln, apply: func(text string, line int) error {
 				cl, err := parseClause(text, path, line)
 				if err != nil {
@@ -652,7 +710,7 @@ func lex(s string) ([]ctoken, error) {
 			toks = append(toks, ctoken{"iter", s[i+1 : j]})
 			i = j
 		default:
-			ops := []string{"<==>", "==>", "::", "==", "!=", "<=", ">=", "&&", "||", "<", ">", "!", "+", "-", "*", "/", "%", "(", ")", "[", "]", ",", ".", ":", "?", "@"}
+			ops := []string{"<==>", "==>", "::", "==", "!=", "<=", ">=", "&&", "||", "&", "<", ">", "!", "+", "-", "*", "/", "%", "(", ")", "[", "]", ",", ".", ":", "?", "@"}
 			matched := false
 			for _, op := range ops {
 				if strings.HasPrefix(s[i:], op) {
@@ -920,6 +978,14 @@ func (p *lexer) unary() (Expr, error) {
 			return nil, err
 		}
 		return &EUn{Op: "*", X: x}, nil
+	}
+	if p.isOp("&") {
+		p.pos++
+		x, err := p.unary()
+		if err != nil {
+			return nil, err
+		}
+		return &EUn{Op: "&", X: x}, nil
 	}
 	return p.postfix()
 }
